@@ -46,7 +46,8 @@ theorem append_open_is_base_stateZ (l : Layout) (hF : l.Fits) (hR : l.ReadableZ)
       s.files = (viewOf l).map appendRecord ∧ s.comment = l.comment ∧
       s.inner = .storer none ∧ s.writingToFile = false ∧ s.writingToExtraField = false ∧
       s.centralOnly = false ∧ (s.files = [] ∨ s.writingRaw = true) := by
-  obtain ⟨d, h1, h2, h3⟩ := newAppend_on_layoutZ l hF hR hS ht
+  obtain ⟨d, h1, h2, h3⟩ := newAppend_on_layoutZ l hF
+    (appendNamesFit_of_clean l hF (fun e he => (hall e he).1)) hR hS ht
   refine ⟨appendStateOf l, d, h1, h2, h3, ?_, viewOf_closedAll l hall, rfl, rfl, rfl, rfl, rfl, rfl,
     Or.inr rfl⟩
   rw [h2, h3, take_cdStart, appendNormAll_bytes l (fun e he => (hall e he).1)]
